@@ -3,6 +3,7 @@ package main
 import (
 	"fmt"
 	"os"
+	"runtime"
 	"strings"
 	"sync"
 	"sync/atomic"
@@ -94,7 +95,6 @@ func hist(a map[string]string) {
 		useed uint64
 		sets  []c09lab.OptionSet
 		line  string
-		ho    *c09lab.HistoryObs
 	}
 	items := make([]*item, n)
 	for i := 0; i < n; i++ {
@@ -121,6 +121,14 @@ func hist(a map[string]string) {
 	}
 	close(next)
 	var failed atomic.Value
+	done := make([]chan struct{}, n)
+	for i := range done {
+		done[i] = make(chan struct{})
+	}
+	index := map[*item]int{}
+	for i, it := range items {
+		index[it] = i
+	}
 	for w := 0; w < workers; w++ {
 		wg.Add(1)
 		go func() {
@@ -135,22 +143,35 @@ func hist(a map[string]string) {
 				ho, err := c09lab.Observe(it.h, exec, it.sets)
 				if err != nil {
 					failed.Store(err.Error())
-					return
+					close(done[index[it]])
+					continue
 				}
-				it.ho = ho
+				if a["diag"] == "1" {
+					diag(it.h, ho, it.sets)
+				}
 				it.line = ho.Sexp(it.h, it.useed, it.sets)
+				it.h = nil // the observations of a history are large: keep the line only
+				close(done[index[it]])
 			}
 		}()
 	}
+	// write the lines in generation order as they become available
+	for i, it := range items {
+		<-done[i]
+		if it.line != "" {
+			out.Line(it.line)
+			it.line = ""
+		}
+	}
 	wg.Wait()
+	if os.Getenv("C09_DEBUG") != "" {
+		var ms runtime.MemStats
+		runtime.GC()
+		runtime.ReadMemStats(&ms)
+		fmt.Fprintf(os.Stderr, "goroutines=%d heap_alloc=%dMB heap_sys=%dMB\n", runtime.NumGoroutine(), ms.HeapAlloc>>20, ms.HeapSys>>20)
+	}
 	if v := failed.Load(); v != nil {
 		fmt.Fprintln(os.Stderr, "observe:", v)
 		os.Exit(1)
-	}
-	for _, it := range items {
-		if a["diag"] == "1" {
-			diag(it.h, it.ho, it.sets)
-		}
-		out.Line(it.line)
 	}
 }
